@@ -5,13 +5,15 @@ M: Evaluation.tla - the greedy confusion-matrix machine Cm checked against the a
    twice and fp without the subtraction must violate CmIdentities.
 G: the same module with Emit=TRUE enumerates curves x = 0..n-1 (n-1 a power of two), knee subsets, expected
    point sequences (|K|+|E| <= n), dyadic tolerances; every behaviour is replayed into evaluation.cm / accuracy /
-   f1score / mcc and evaluation.mae / mse / rmse / rmspe x 4 strategies."""
+   f1score / mcc and evaluation.mae / mse / rmse / rmspe x 4 strategies.
+T: Trace_Evaluation (confusion matrices of a few hundred points, GreedyTP) and Trace_EvaluationScale (the "scale" family:
+   production-size calls - 10^3 .. 10^5 points, 257 .. 70000 knees / expected points - with sparse, TLC-certified tables)."""
 import math
 from fractions import Fraction as Fr
 
 import numpy as np
 
-from harness import growth, numeric, par
+from harness import growth, monitor, numeric, par, scale
 
 STRATS = ("knees", "expected", "best", "worst")
 EPS = 1e-16                      # evaluation.rmspe's default eps
@@ -198,12 +200,553 @@ STATIC_BIG = {"id": "s", "outcome": "returned", "n": 9, "K": [3, 8], "E": [[2, 0
               "cm": [[2, 0], [1, 6]]}
 
 
+# ------------------------------------------------------------------------------------------------------------------
+# The "scale" family (seed round 15): production-size calls.  Every case is a small JSON descriptor from which the
+# curve, the knee indices and the expected points are rebuilt deterministically (so a replay file stays tiny); all
+# coordinates are integers (x = 0..n-1, y in 1..SC_Y), which keeps every oracle exact:
+#   err: the nearest-neighbour matching in both directions is computed in int64 (first index on ties), CERTIFIED by
+#        TLC (Trace_EvaluationScale: sparse window tables, exact sums in two limbs, side per strategy, perfect flag) and
+#        the definitions are evaluated from it (mae / mse as exact fractions, rmspe per term over Fractions, fsum, sqrt
+#        last); mae / mse / rmse / rmspe (default eps and eps = 0.25) x 4 strategies are compared with them.
+#   cm:  the matrix evaluation.cm returns is judged by TLC (accounting identities, greedy one-to-one count walked one
+#        expected point per step from a locally certified nearest-knee table); t = tn/td with td <= 1000, so that
+#        distance/range <= t decides in binary64 exactly as over the rationals (distinct quotients differ by more than
+#        1/(range * td) > 8e-9).  accuracy / f1score / mcc of that matrix: range and 1 on perfect detection.
+SC_Y = 16000
+SC_SHAPES = ("hyper", "stairs", "saw", "ramp", "mrc")
+SC_ROWS = 4000            # rows of one matching table that reach TLC (all of them when the iterated side is not longer)
+SC_WINDOW = 250000        # candidate evaluations of one matching table inside TLC
+
+
+def _machinery(msg):
+    import sys
+    raise getattr(sys.modules.get("__main__"), "Machinery", RuntimeError)(msg)
+
+
+def _sc_curve(shape, n, seed):
+    import random
+    i = np.arange(n, dtype=np.int64)
+    if shape == "hyper":
+        y = np.floor(15000.0 / np.sqrt(1.0 + i)) + 1 + (i * 37 % 5)
+    elif shape == "stairs":
+        y = scale.staircase(n, min(400, n // 8), random.Random(seed))[:, 1] + 1
+    elif shape == "saw":
+        y = 1 + (i * 7919 % 211) * 40 + (i % 7)
+    elif shape == "ramp":
+        y = 1 + (i * 15000) // n + (i % 3)
+    else:
+        y = np.floor(scale.mrc(n, random.Random(seed))[:, 1]) + 1
+    y = np.asarray(y, dtype=float)
+    assert y.min() >= 1 and y.max() <= SC_Y and np.all(y == np.floor(y))
+    return np.ascontiguousarray(np.column_stack([i.astype(float), y]))
+
+
+def _sc_knees(rng, n, nk, mode):
+    if mode == "even":
+        return sorted(set(int(v) for v in np.linspace(1, n - 2, nk).astype(int)))
+    if mode == "clustered":
+        s = set()
+        while len(s) < nk:
+            c = rng.randrange(1, n - 8)
+            for v in range(c, c + rng.randint(2, 6)):
+                if len(s) < nk:
+                    s.add(v)
+        return sorted(s)
+    return sorted(rng.sample(range(1, n - 1), nk))
+
+
+def _sc_build(d):
+    """descriptor -> (P, K, E): P float (n, 2), K sorted int array, E float (ne, 2) with integer coordinates, distinct rows"""
+    import random
+    rng = random.Random(d["seed"])
+    n = d["n"]
+    P = _sc_curve(d["shape"], n, d["seed"])
+    K = _sc_knees(rng, n, d["nk"], d["kmode"])
+    ne, mode = d["ne"], d["emode"]
+    ys = P[:, 1]
+    if d["fam"] == "cm":
+        tn, td = d["t"]
+        w = (tn * (n - 1)) // td                  # the largest distance still within tolerance
+        if mode == "perfect":
+            xs = list(K)
+        else:
+            xs = []
+            for _ in range(ne):
+                u = rng.random()
+                if u < 0.2:
+                    xs.append(rng.randrange(n))
+                else:
+                    k = K[rng.randrange(len(K))]
+                    sh = rng.choice((0, 0, 1, -1, w, -w, w + 1, -w - 1, rng.randint(-w - 2, w + 2)))
+                    xs.append(min(max(k + sh, 0), n - 1))
+        if mode == "perfect":
+            E = P[np.array(K)].copy()
+        else:
+            E = np.array([[float(x), 1.0 + 0.5 * m] for m, x in enumerate(xs)])        # distinct points; cm reads x only
+        return P, np.array(K, dtype=int), E
+    if mode in ("perfect", "perfect-shuffled"):
+        pts = [(k, int(ys[k])) for k in K]
+    else:
+        seen, pts = set(), []
+        guard = 0
+        while len(pts) < ne:
+            guard += 1
+            near = mode in ("near", "off") and (guard < 6 * ne) and rng.random() < 0.9
+            if near:
+                x = K[rng.randrange(len(K))] + rng.choice((-2, -1, 0, 0, 1, 2, 3))
+                x = min(max(x, 1), n - 1)
+            else:
+                x = rng.randrange(1, n)
+            y = int(ys[x])
+            if mode == "off":
+                y = max(1, y + rng.choice((-3, -2, -1, 0, 1, 2, 3)))
+            if (x, y) not in seen:
+                seen.add((x, y))
+                pts.append((x, y))
+    order = d.get("order", "asis")
+    if mode == "perfect-shuffled" or order == "shuffled":
+        rng.shuffle(pts)
+    elif order == "sorted":
+        pts.sort()
+    elif order == "reversed":
+        pts.sort(reverse=True)
+    return P, np.array(K, dtype=int), np.array(pts, dtype=float)
+
+
+def _sc_call(fn, args, m):
+    """every library call of the family: back-edge budget quadratic in the number of matched points (the unchanged code
+    uses one back-edge per iterated point), CPU-time watchdog far beyond any returning call"""
+    out, v, _ = monitor.call(fn, args, budget=monitor.quad(m, 8), wall=900)
+    return out, v
+
+
+def _limbs(v):
+    return [int(v) >> 20, int(v) & ((1 << 20) - 1)]
+
+
+def _sc_match(A, Bp, rng):
+    """exact nearest neighbour (int64, first index on ties) of every row of A among the rows of Bp, the table that lets TLC
+    certify it, and the exact numerators of the mean absolute / squared error"""
+    na, nb = len(A), len(Bp)
+    order = np.argsort(Bp[:, 0], kind="stable")
+    bxs = Bp[order, 0]
+    mt = np.empty(na, dtype=np.int64)
+    r2 = np.empty(na, dtype=np.int64)
+    step = max(1, 4000000 // nb)
+    for a0 in range(0, na, step):
+        a = A[a0:a0 + step]
+        dd = (a[:, None, 0] - Bp[None, :, 0]) ** 2 + (a[:, None, 1] - Bp[None, :, 1]) ** 2
+        m = dd.argmin(axis=1)
+        mt[a0:a0 + step] = m
+        r2[a0:a0 + step] = dd[np.arange(len(a)), m]
+    diff = np.abs(A - Bp[mt])
+    mae_n = int(diff.sum())
+    mse_n = int(r2.sum())
+    r = np.array([math.isqrt(int(v)) for v in r2], dtype=np.int64)
+    lo = np.searchsorted(bxs, A[:, 0] - r, side="left")
+    hi = np.searchsorted(bxs, A[:, 0] + r, side="right") - 1
+    ok = r2 < (1 << 30)
+    rows = np.nonzero(ok)[0]
+    full = bool(ok.all())
+    if len(rows) > SC_ROWS:
+        full = False
+        far = rows[np.argsort(r2[rows])[-200:]]
+        pick = set(rng.sample([int(v) for v in rows], SC_ROWS - 300)) | set(int(v) for v in far) | \
+            set(int(v) for v in rows[:50]) | set(int(v) for v in rows[-50:])
+        rows = np.array(sorted(pick))
+    width = (hi - lo + 1)[rows]
+    if int(width.sum()) > SC_WINDOW:
+        full = False
+        keep, tot = [], 0
+        for i in rng.sample([int(v) for v in rows], len(rows)):
+            wv = int(hi[i] - lo[i] + 1)
+            if tot + wv <= SC_WINDOW:
+                keep.append(i)
+                tot += wv
+        rows = np.array(sorted(keep), dtype=np.int64)
+    tb = {"full": full, "mae": _limbs(mae_n), "mse": _limbs(mse_n),
+          "rows": [[int(i) + 1, int(mt[i]) + 1, int(r[i]), int(lo[i]) + 1, int(hi[i]) + 1] for i in rows]}
+    return mt, mae_n, mse_n, tb, [int(v) + 1 for v in order]
+
+
+def _sc_rmspe(A, Bp, mt, eps):
+    """sqrt(mean(((p - b) / (p + eps))^2)) over both coordinates: every term exactly over Fractions and correctly rounded,
+    exact (fsum) sum of the rounded terms, sqrt last - a relative error of a few 2^-53"""
+    eps = Fr(eps)
+    terms = []
+    den = {}
+    for p, q in zip(A.tolist(), Bp[mt].tolist()):
+        for c in (0, 1):
+            if p[c] != q[c]:
+                dv = den.get(p[c])
+                if dv is None:
+                    dv = den[p[c]] = (Fr(p[c]) + eps) ** 2
+                f = Fr((p[c] - q[c]) ** 2) / dv
+                terms.append(f.numerator / f.denominator)
+    return math.sqrt(math.fsum(terms) / (2 * len(A)))
+
+
+def _sc_side(s, nk, ne):
+    if s in ("knees", "expected"):
+        return s
+    if s == "best":
+        return "expected" if ne <= nk else "knees"
+    return "expected" if ne >= nk else "knees"
+
+
+def _sc_err_oracle(d):
+    import random
+    P, K, E = _sc_build(d)
+    rng = random.Random(d["seed"] + 7)
+    KP = P[K].astype(np.int64)
+    Ei = E.astype(np.int64)
+    assert np.all(Ei == E) and len(set(map(tuple, Ei.tolist()))) == len(Ei) and len(K) + len(E) <= d["n"]
+    wants, tabs, ords = {}, {}, {}
+    for side, A, Bp in (("knees", KP, Ei), ("expected", Ei, KP)):
+        mt, mae_n, mse_n, tb, order = _sc_match(A, Bp, rng)
+        tabs[side], ords[side] = tb, order              # order sorts the MATCHED side of this direction
+        na = len(A)
+        wants[side] = {"mae": mae_n / (2.0 * na), "mse": mse_n / (2.0 * na), "rmse": math.sqrt(mse_n / (2.0 * na)),
+                       "rmspe": _sc_rmspe(A, Bp, mt, EPS), "rmspe25": _sc_rmspe(A, Bp, mt, 0.25),
+                       "far_matches": int((mt >= 256).sum()), "max_match_index": int(mt.max())}
+    perfect = set(map(tuple, Ei.tolist())) == set(map(tuple, KP.tolist()))
+    case = {"id": d["id"], "kind": "err", "n": d["n"], "KP": KP.tolist(), "E": Ei.tolist(),
+            "ordK": ords["expected"], "ordE": ords["knees"], "mk": tabs["knees"], "me": tabs["expected"],
+            "side": {s: _sc_side(s, len(K), len(E)) for s in STRATS}, "perfect": perfect}
+    return {"case": case, "wants": wants, "perfect": perfect, "nk": len(K), "ne": len(E)}
+
+
+def _sc_err_calls(d, s, only=None):
+    """the library calls of one strategy (only: one of them - the long cases are cut into one work item per call)"""
+    import kneeliverse.evaluation as ev
+    P, K, E = _sc_build(d)
+    m = len(K) + len(E)
+    st = ev.Strategy[s]
+    got = {}
+    for name in ("mae", "mse", "rmse", "rmspe"):
+        if only in (None, name):
+            got[name] = _sc_call(getattr(ev, name), (P, K, E, st), m)
+    if only in (None, "rmspe25"):
+        got["rmspe25"] = _sc_call(ev.rmspe, (P, K, E, st, 0.25), m)
+    if s == "expected" and only in (None, "default"):   # the identity through the default strategy as well (no optional argument)
+        got["mse_default"] = _sc_call(ev.mse, (P, K, E), m)
+        got["rmse_default"] = _sc_call(ev.rmse, (P, K, E), m)
+    return {k: (o, (float(v) if o == "returned" else str(v))) for k, (o, v) in got.items()}
+
+
+def _sc_cm(d):
+    import kneeliverse.evaluation as ev
+    P, K, E = _sc_build(d)
+    n, (tn, td) = d["n"], d["t"]
+    assert len(K) + len(E) <= n and td <= 1000 and n <= 200000
+    ex = [int(v) for v in E[:, 0]]
+    kx = np.array(K, dtype=np.int64)
+    pos = np.searchsorted(kx, np.array(ex, dtype=np.int64), side="left")
+    nk = []
+    for px, p in zip(ex, pos.tolist()):
+        c = [k for k in (p - 1, p) if 0 <= k < len(kx)]
+        nk.append(min(c, key=lambda k: (abs(int(kx[k]) - px), k)) + 1)
+    out, v = _sc_call(ev.cm, (P, K, E, tn / td), len(K) + len(E))
+    case = {"id": d["id"], "kind": "cm", "outcome": out, "n": n, "K": [int(k) for k in K], "EX": ex, "t": [tn, td], "nk": nk,
+            "cm": [[0, 0], [0, 0]]}
+    bad = []
+    if out == "returned":
+        try:
+            g = np.asarray(v)
+            case["cm"] = [[int(x) for x in row] for row in g.tolist()]
+            if any(x != int(x) for row in g.tolist() for x in row) or g.shape != (2, 2):
+                raise ValueError("not a 2x2 integer matrix: %r" % (g.tolist(),))
+            if any(abs(x) >= 2 ** 31 for row in case["cm"] for x in row):
+                raise ValueError("entry beyond 2^31: %r" % (case["cm"],))
+        except Exception as ex2:
+            case["outcome"] = "raised:" + type(ex2).__name__
+            bad.append(("returns", {"fn": "cm", "raised": repr(ex2)[:200]}))
+            return {"case": case, "bad": bad}
+        (tp, fp), (fn_, tn_) = case["cm"]
+        prod = (tp + fp) * (tp + fn_) * (tn_ + fp) * (tn_ + fn_)
+        fns = [("accuracy", ev.accuracy, 0.0), ("f1score", ev.f1score, 0.0)]
+        if 0 < prod < 2 ** 62 and min(tp, fp, fn_, tn_) >= 0:       # MCC where its denominator is non-zero (and inside int64)
+            fns.append(("mcc", ev.mcc, -1.0))
+        for name, f, lo in fns:
+            o, sv = _sc_call(f, (v,), 64)
+            if o != "returned":
+                bad.append(("returns", {"fn": name, "outcome": o, "cm": case["cm"], "what": str(sv)[:200]}))
+                continue
+            sv = float(sv)
+            if not (lo - 1e-12 <= sv <= 1.0 + 1e-12):
+                bad.append(("score-range", {"fn": name, "got": sv, "cm": case["cm"]}))
+            elif d["emode"] == "perfect" and abs(sv - 1.0) > 1e-12:
+                bad.append(("one-on-perfect", {"fn": name, "got": sv, "cm": case["cm"]}))
+    return {"case": case, "bad": bad}
+
+
+def _sc_item(item):
+    d, part = item
+    if part == "oracle":
+        return _sc_err_oracle(d)
+    if part == "cm":
+        return _sc_cm(d)
+    st, _, only = part.partition(":")
+    return _sc_err_calls(d, st, only or None)
+
+
+def _sc_judge_err(d, orc, got):
+    """the real-valued results against the TLC-certified definition (tolerances of the small inputs, widened by n * eps)"""
+    bad = []
+    for s in STRATS:
+        side = _sc_side(s, orc["nk"], orc["ne"])
+        w = orc["wants"][side]
+        na = orc["nk"] if side == "knees" else orc["ne"]
+        rel = numeric.VAL_REL + 8 * na * 2.0 ** -52
+        vals = {}
+        for name, (o, v) in got[s].items():
+            fn = name.split("_")[0] if name.endswith("_default") else ("rmspe" if name == "rmspe25" else name)
+            what = {"fn": fn, "strategy": "<default>" if name.endswith("_default") else s}
+            if name == "rmspe25":
+                what["eps"] = 0.25
+            if o != "returned":
+                bad.append(("returns", dict(what, outcome=o, what=str(v)[:200])))
+                continue
+            vals[name] = v
+            if name.endswith("_default"):
+                continue
+            if not (v >= 0.0):
+                bad.append(("error-nonnegative", dict(what, got=v)))
+            elif orc["perfect"] and abs(v) > numeric.VAL_ABS:
+                bad.append(("zero-on-perfect", dict(what, got=v, knees=orc["nk"], expected=orc["ne"])))
+            elif not numeric.close(v, w[name], rel=rel, ab=numeric.VAL_ABS):
+                bad.append(("error-definition(%s,%s)" % (fn, s),
+                            dict(what, got=v, specified=w[name], iterated_side=side, iterated=na,
+                                 matched_against=orc["ne"] if side == "knees" else orc["nk"],
+                                 matches_beyond_index_255=w["far_matches"])))
+        for a, b, lab in (("rmse", "mse", s), ("rmse_default", "mse_default", "<default>")):
+            if a in vals and b in vals and vals[b] >= 0 and not numeric.close(vals[a], math.sqrt(vals[b]), rel=1e-12):
+                bad.append(("rmse-is-sqrt-mse", {"strategy": lab, "rmse": vals[a], "mse": vals[b]}))
+    return bad
+
+
+def _sc_plan(ctx):
+    """the descriptors of one run: sizes straddle 256 / 1024 / 4096 / 16384 / 32768 / 65536 on the MATCHED-AGAINST side (both
+    sides in turn), on curves whose lengths come from scale.sizes (just above 4096 .. 10^5)"""
+    rng = ctx.rng
+    ns = scale.sizes(ctx, lo=3000, k_quick=4, k_thorough=8)
+    big = max(ns)
+
+    def curve_for(m):
+        fit = [n for n in ns if n >= 2 * m + 8]
+        return rng.choice(fit) if fit else max(big, m + 8 + rng.randrange(50))
+
+    def desc(fam, nk, ne, emode, **kw):
+        d = {"fam": fam, "n": curve_for(nk + ne), "shape": rng.choice(SC_SHAPES), "kmode": rng.choice(("uniform", "uniform", "clustered", "even")),
+             "nk": nk, "ne": ne, "emode": emode, "order": rng.choice(("asis", "sorted", "shuffled", "reversed")),
+             "seed": rng.randrange(1 << 30)}
+        d.update(kw)
+        if d["kmode"] == "even":        # linspace may merge a few indices: the descriptor states what is built
+            d["nk"] = len(_sc_knees(None, d["n"], nk, "even"))
+            if emode in ("perfect", "perfect-shuffled"):
+                d["ne"] = d["nk"]
+        return d
+
+    tiers = ((257, 330), (600, 1000), (1025, 1100), (4097, 4200))
+    err, cmc = [], []
+    for rep in range(1 if ctx.quick else 3):
+        for ti, (lo, hi) in enumerate(tiers):
+            b = rng.randint(lo, hi)
+            # beyond 4096 the cost |a| * |b| of one call is kept down on most cases by a shorter other side
+            light = lo > 4000 and (ctx.quick or rep > 0)
+            sm = max(40, int(b * (rng.uniform(0.12, 0.3) if light else rng.uniform(0.55, 0.95))))
+            # one general case with the knees as the longer side, one with the expected points as the longer side ...
+            err.append(desc("err", b, sm, rng.choice(("near", "off"))))
+            err.append(desc("err", sm, b, rng.choice(("near", "off", "random"))))
+            if light:
+                continue
+            # ... perfect detection (in call order and shuffled) and |E| = |K| (the <= / >= branches of best / worst)
+            third = ("perfect", "equal", "perfect-shuffled", "equal")[(ti + rep) % 4]
+            if third == "equal":
+                err.append(desc("err", b, b, rng.choice(("near", "off")), kmode="uniform"))
+            else:
+                err.append(desc("err", b, b, third))
+            if not ctx.quick:
+                err.append(desc("err", b, b, ("perfect-shuffled", "perfect")[(ti + rep) % 2]))
+        # lopsided: tens of thousands of points on one side (int16 / uint16 indices, 16384 / 32768 / 65536 seams), few on the other
+        huges = [16385 + rng.randrange(3000), 32769 + rng.randrange(3000)] + ([] if ctx.quick else [65537 + rng.randrange(3000)])
+        flip = rng.randrange(2)
+        for hi_, huge in enumerate(huges):
+            few = rng.randint(40, 300)
+            if (hi_ + flip + rep) % 2 == 0:      # over the repetitions of the thorough tier every size gets both orientations
+                err.append(desc("err", huge, few, rng.choice(("near", "random")), kmode="uniform"))
+            else:
+                err.append(desc("err", few, huge, "random", kmode="uniform"))
+        ts = [(1, 100), (1, 1000), (1, 64), (3, 1000), (1, 8), (0, 1), (1, 250), (1, 1)]
+        rng.shuffle(ts)
+        for ti, (lo, hi) in enumerate(tiers):
+            b = rng.randint(lo, hi)
+            cmc.append(desc("cm", b, max(40, int(b * rng.uniform(0.5, 1.6))), "near", t=list(ts[ti])))
+            cmc.append(desc("cm", max(40, int(b * rng.uniform(0.3, 0.9))), b, "near", t=list(ts[4 + ti])))
+        cmc.append(desc("cm", rng.randint(600, 3000), 0, "perfect", t=list(rng.choice(ts))))
+        cmc.append(desc("cm", 16385 + rng.randrange(20000), rng.randint(300, 1500), "near", t=[1, 1000], kmode="uniform"))
+    for d in cmc:
+        if d["emode"] == "perfect":
+            d["ne"] = d["nk"]
+    for k, d in enumerate(err + cmc):
+        d["id"] = "S%s%d" % (d["fam"], k)
+    return ns, err, cmc
+
+
+SC_STATIC_CM = {"id": "s", "kind": "cm", "outcome": "returned", "n": 9, "K": [2, 7], "EX": [2, 7, 3], "t": [1, 8],
+                "nk": [1, 2, 1], "cm": [[2, 0], [1, 6]]}
+# knee points (1,5) (4,5) (6,1); expected (4,4) (2,5) (9,9): (2,5) is at distance 1 of knee 1; knee 2 is nearest to (4,4)
+SC_STATIC_ERR = {"id": "e", "kind": "err", "n": 12, "KP": [[1, 5], [4, 5], [6, 1]], "E": [[4, 4], [2, 5], [9, 9]],
+                 "ordK": [1, 2, 3], "ordE": [2, 1, 3],
+                 "mk": {"full": True, "rows": [[1, 2, 1, 1, 1], [2, 1, 1, 2, 2], [3, 1, 3, 2, 3]], "mae": [0, 7], "mse": [0, 15]},
+                 "me": {"full": True, "rows": [[1, 2, 1, 2, 2], [2, 1, 1, 1, 1], [3, 2, 6, 2, 3]], "mae": [0, 11], "mse": [0, 43]},
+                 "side": {"knees": "knees", "expected": "expected", "best": "expected", "worst": "expected"}, "perfect": False}
+# an exact tie: (2,1) is equally far from both knee points - the first index is the match
+SC_STATIC_TIE = {"id": "t", "kind": "err", "n": 5, "KP": [[1, 1], [3, 1]], "E": [[2, 1]], "ordK": [1, 2], "ordE": [1],
+                 "mk": {"full": True, "rows": [[1, 1, 1, 1, 1], [2, 1, 1, 1, 1]], "mae": [0, 2], "mse": [0, 2]},
+                 "me": {"full": True, "rows": [[1, 1, 1, 1, 2]], "mae": [0, 1], "mse": [0, 1]},
+                 "side": {"knees": "knees", "expected": "expected", "best": "expected", "worst": "knees"}, "perfect": False}
+
+
+def _sc_selftests():
+    import copy
+    st = [(SC_STATIC_CM, "ok"), (SC_STATIC_ERR, "ok"), (SC_STATIC_TIE, "ok")]
+
+    def mut(base, clause, f):
+        c = copy.deepcopy(base)
+        f(c)
+        st.append((c, clause))
+    mut(SC_STATIC_CM, "cm-identities", lambda c: c.update(cm=[[3, 0], [0, 6]]))
+    mut(SC_STATIC_CM, "cm-greedy-count", lambda c: c.update(cm=[[1, 1], [2, 5]]))
+    mut(SC_STATIC_CM, "table", lambda c: c.update(nk=[2, 2, 1]))
+    mut(SC_STATIC_CM, "returns", lambda c: c.update(outcome="budget"))
+    mut(SC_STATIC_ERR, "table", lambda c: c["mk"]["rows"].__setitem__(2, [3, 3, 8, 1, 3]))      # a farther point as the match
+    mut(SC_STATIC_ERR, "table", lambda c: c["me"]["rows"].__setitem__(2, [3, 2, 6, 3, 3]))      # window hides the nearest
+    mut(SC_STATIC_ERR, "table", lambda c: c["mk"].update(mse=[0, 16]))
+    mut(SC_STATIC_ERR, "table", lambda c: c["me"].update(mae=[1, 12]))
+    mut(SC_STATIC_ERR, "table", lambda c: c["side"].update(best="knees"))
+    mut(SC_STATIC_ERR, "table", lambda c: c.update(perfect=True))
+    mut(SC_STATIC_ERR, "table", lambda c: c.update(ordE=[1, 2, 3]))
+    mut(SC_STATIC_TIE, "table", lambda c: c["me"]["rows"].__setitem__(0, [1, 2, 1, 1, 2]))      # the later of two tied points
+    return st
+
+
+def _sc_validate(ctx, cases, descs, selftest=None):
+    """cases through Trace_EvaluationScale; a rejected oracle table is a machinery failure, a rejected cm a violation"""
+    sc = ctx.extra.setdefault("scale", {})
+    sc["approx_bytes_to_tlc"] = sc.get("approx_bytes_to_tlc", 0) + sum(len(repr(c)) for c in cases)
+    # ctx.trace cuts the batch (self-tests in front) into consecutive chunks, one TLC run each: lay the cases out so that the
+    # heavy ones (tables of thousands of rows) are spread over the runs
+    nst = len(selftest or [])
+    nch = max(1, min(6, (len(cases) + 1) // 2))
+    chunk = -(-(len(cases) + nst) // nch)
+    cap = [max(0, min((c + 1) * chunk, nst + len(cases)) - max(c * chunk, nst)) for c in range(nch)]
+    slots = [[] for _ in range(nch)]
+    c = 0
+    for k in sorted(range(len(cases)), key=lambda k: -len(repr(cases[k]))):
+        while len(slots[c % nch]) >= cap[c % nch]:
+            c += 1
+        slots[c % nch].append(cases[k])
+        c += 1
+    flat = [x for sl in slots for x in sl]
+    assert len(flat) == len(cases)
+    rej = ctx.trace("Trace_EvaluationScale", flat, selftest=selftest, chunk=chunk, procs=6)
+    for cid, vs in rej.items():
+        v = vs[0]
+        if v[0] == "table":
+            _machinery("Trace_EvaluationScale rejected the harness's own oracle table of case %s (%s): %s" % (cid, descs[cid], v))
+        ctx.violation(v[0], {"kind": "Tscale", "desc": descs[cid]}, {"verdict": [str(x)[:200] for x in v]})
+    return rej
+
+
+def _sc_run(ctx, err, cmc, selftest=None):
+    def parts(d):
+        if d["nk"] + d["ne"] <= 5000:
+            return ("oracle",) + STRATS
+        return ("oracle",) + tuple("%s:%s" % (st, f) for st in STRATS for f in ("mae", "mse", "rmse", "rmspe", "rmspe25", "default")
+                                   if f != "default" or st == "expected")
+    items = [(d, part) for d in err for part in parts(d)] + [(d, "cm") for d in cmc]
+    # the longest items first (an iterated side of tens of thousands of points costs seconds)
+    items.sort(key=lambda it: -(it[0]["nk"] + it[0]["ne"]))
+    res = par.pmap(_sc_item, items, chunksize=1)
+    by = {}
+    for (d, part), r in zip(items, res):
+        if ":" in part:
+            by.setdefault(d["id"], {}).setdefault(part.partition(":")[0], {}).update(r)
+        else:
+            by.setdefault(d["id"], {})[part] = r
+    descs = {d["id"]: d for d in err + cmc}
+    cases = [by[d["id"]]["oracle"]["case"] for d in err] + [by[d["id"]]["cm"]["case"] for d in cmc]
+    _sc_validate(ctx, cases, descs, selftest=selftest)
+    seen = {}
+    for d in err:
+        orc = by[d["id"]]["oracle"]
+        for clause, detail in _sc_judge_err(d, orc, {s: by[d["id"]][s] for s in STRATS}):
+            seen[clause] = seen.get(clause, 0) + 1
+            if seen[clause] <= 2:
+                ctx.violation(clause, {"kind": "Tscale", "desc": d}, detail)
+    for d in cmc:
+        for clause, detail in by[d["id"]]["cm"]["bad"]:
+            seen[clause] = seen.get(clause, 0) + 1
+            if seen[clause] <= 2:
+                ctx.violation(clause, {"kind": "Tscale", "desc": d}, detail)
+    return by, seen
+
+
+def _scale_family(ctx):
+    import time
+    t0 = time.time()
+    ns, err, cmc = _sc_plan(ctx)
+    by, seen = _sc_run(ctx, err, cmc, selftest=_sc_selftests())
+    cov = ctx.extra.setdefault("scale", {})
+    cov["curve_lengths"] = sorted(set(d["n"] for d in err + cmc))
+    cov["err_cases"] = [{"n": d["n"], "knees": by[d["id"]]["oracle"]["nk"], "expected": by[d["id"]]["oracle"]["ne"], "shape": d["shape"],
+                         "knee_layout": d["kmode"], "expected_points": d["emode"], "order": d["order"],
+                         "perfect": by[d["id"]]["oracle"]["perfect"],
+                         "rows_certified_by_tlc": [len(by[d["id"]]["oracle"]["case"][k]["rows"]) for k in ("mk", "me")],
+                         "sums_certified_by_tlc": [by[d["id"]]["oracle"]["case"][k]["full"] for k in ("mk", "me")]} for d in err]
+    cov["cm_cases"] = [{"n": d["n"], "knees": len(by[d["id"]]["cm"]["case"]["K"]), "expected": len(by[d["id"]]["cm"]["case"]["EX"]),
+                        "t": "%d/%d" % tuple(d["t"]), "expected_points": d["emode"], "cm": by[d["id"]]["cm"]["case"]["cm"]} for d in cmc]
+    cov["violating_cases_by_clause"] = dict(seen)
+    cov["calls_per_err_case"] = "mae, mse, rmse, rmspe, rmspe(eps=0.25) x 4 strategies + mse / rmse with the default strategy"
+    cov["wall_s"] = round(time.time() - t0, 1)
+    for d in err:
+        o = by[d["id"]]["oracle"]
+        ctx.count(("scale-err", d["n"], d["shape"], d["kmode"], d["emode"], d["nk"], d["ne"], d["seed"]),
+                  min(o["nk"], o["ne"]) > 256 or max(o["nk"], o["ne"]) > 256)
+    for d in cmc:
+        m = by[d["id"]]["cm"]["case"]["cm"]
+        ctx.count(("scale-cm", d["n"], d["nk"], d["ne"], d["t"], d["seed"]), m[0][0] > 256 or m[1][0] >= 1)
+    ctx.traces += 20 * len(err)          # the library calls of the err cases (the cm cases are counted by ctx.trace)
+    pick = next((d for d in err if d["emode"] in ("near", "off") and min(d["nk"], d["ne"]) > 256), err[0])
+    o = by[pick["id"]]["oracle"]
+    ctx.sample({"binding": "T (scale)", "descriptor": pick, "knees": o["nk"], "expected": o["ne"],
+                "specified": {k: {f: v[f] for f in ("mae", "mse", "rmse", "rmspe")} for k, v in o["wants"].items()},
+                "returned": {s: {f: by[pick["id"]][s][f][1] for f in ("mae", "mse", "rmse", "rmspe")} for s in STRATS}})
+    ctx.note("scale family: %d error cases (up to %d knees / %d expected points) and %d confusion-matrix cases on curves of %s points in %.1f s"
+             % (len(err), max(d["nk"] for d in err), max(d["ne"] for d in err), len(cmc), cov["curve_lengths"], cov["wall_s"]))
+
+
+def _scale_replay(ctx, d):
+    if d["fam"] == "cm":
+        _sc_run(ctx, [], [d])
+    else:
+        _sc_run(ctx, [d], [])
+
+
+
 def run(ctx):
     ctx.rule = ("TLC enumerates (Evaluation.tla) kind cm: curves x=0..n-1, every knee index subset, every expected x "
                 "sequence with |K|+|E| <= n (bounded length), t in {0,1/8,1/4,1/2,1}; kind err: every height vector in "
                 "0..2 for n=3 and three shapes for n=5, knee subsets, expected point sequences on and off the curve; each "
                 "behaviour is replayed into cm/accuracy/f1score/mcc resp. mae/mse/rmse/rmspe x 4 strategies.  non-trivial: "
-                "cm with a possible match and at least one miss or false positive; err with a non-zero error")
+                "cm with a possible match and at least one miss or false positive; err with a non-zero error.  "
+                "Scale family (T, Trace_EvaluationScale): production-size calls - curves of 4097 .. 10^5 points (integer "
+                "ordinates, 5 shapes), 257 .. 70000 knees and expected points with the matched-against side straddling 256 / "
+                "1024 / 4096 / 16384 / 32768 / 65536 in both directions (near / off-curve / random / perfect / shuffled / "
+                "|E| = |K|) - replayed into mae / mse / rmse / rmspe (default eps and 0.25) x 4 strategies against an exact int64 "
+                "nearest-neighbour matching that TLC certifies from sparse window tables, and into cm (t = tn/td, exact ties "
+                "included) whose matrix TLC judges by walking the greedy count from a locally certified nearest-knee table")
     ctx.assumptions += numeric.ASSUMPTIONS + [
         "n-1 is a power of two and t dyadic, so distance/range <= t is decided exactly in binary64",
         "nearest knee / nearest neighbour ties: first index (numpy argmin)",
@@ -211,7 +754,12 @@ def run(ctx):
         "harness exactly over fractions.Fraction, sqrt last",
         "accuracy/f1score/mcc are judged on range and perfect detection (what the property states); a value that differs "
         "from the textbook formula but obeys those laws is recorded as DRIFT, not as a violation",
-        "MCC is not judged where its denominator is zero"]
+        "MCC is not judged where its denominator is zero",
+        "scale family: integer coordinates (x = 0..n-1, y in 1..16000), so squared distances, their comparisons and the sums "
+        "of |dx|+|dy| and dx^2+dy^2 are exact in int64 and in binary64 (distinct squared distances below 2^52 have distinct "
+        "correctly rounded roots); values are compared within rel 1e-9 + 8*|a|*2^-52 / abs 1e-12; rmspe terms are evaluated "
+        "exactly over Fractions, rounded once and summed exactly (fsum); cm tolerances are rationals tn/td with td <= 1000 "
+        "and n <= 1.1*10^5, for which distance/range <= t decides in binary64 exactly as over the rationals"]
     acts = ("CmClaim", "CmMiss", "CmReturn", "ErrReturn")
     ctx.mc("Evaluation", "MC_Evaluation_reclaim", expect="CmIdentities")
     ctx.mc("Evaluation", "MC_Evaluation_fpraw", expect="CmIdentities")
@@ -270,6 +818,8 @@ def run(ctx):
                     ctx.violation("score-range", case, {"fn": name, "got": v, "cm": np.asarray(m).tolist()})
                 elif perfect and abs(v - 1.0) > 1e-12:
                     ctx.violation("one-on-perfect", case, {"fn": name, "got": v, "cm": np.asarray(m).tolist()})
+    # ---- scale: production-size calls with sparse TLC-certified tables
+    _scale_family(ctx)
     # ---- growth beyond C19: the R2 neighbourhood searches of evaluation.py (notes only)
     growth.safe(ctx, growth.neighbourhood)
     growth.safe(ctx, growth.accuracy_knee_t)
@@ -308,6 +858,9 @@ def _replay_long(ctx, c):
 
 
 def replay(ctx, obj):
+    if obj["case"].get("kind") == "Tscale":
+        _scale_replay(ctx, obj["case"]["desc"])
+        return
     if obj["case"].get("kind") == "long":
         _replay_long(ctx, obj["case"])
         return
